@@ -156,7 +156,8 @@ func zzC02Call(c zzCallable, kinds []int, kw int) {
 	zzAssertExcept(zzNot(fatal), "C02.call.nofatal", known)
 	zzAssertExcept(zzNot(panicked), "C02.call.nopanic", known)
 	if !panicked && !fatal {
-		zzAssert((res == nil) == (err != nil), "C02.call.value_xor_error")
+		// a value or an error (sorted() may return both a partial result and the error)
+		zzAssert(res != nil || err != nil, "C02.call.value_or_error")
 		zzAssert(thread.CallStackDepth() == 0, "C02.call.stack_restored")
 	}
 }
